@@ -32,6 +32,10 @@ type c02Scenario struct {
 	// TLSSub: the service under test is a sub-path service (/x, /z, /slow) on a host whose root
 	// service has TLS; it inherits the TLS settings, and every client request arrives over TLS
 	TLSSub bool `json:"tls_subpath,omitempty"`
+	// ShortTT: the target timeout (which bounds the wait for response headers only) is shorter than
+	// the time the slow in-flight responses need; they are all streamed (headers at once, second
+	// half of the body after SlowLat) and must still arrive whole: the drain timeout is 5s
+	ShortTT bool `json:"short_target_timeout,omitempty"`
 }
 
 const c02Delta = 10*time.Millisecond + OffHook
@@ -74,6 +78,13 @@ func c02Gen(rng *rand.Rand, idx int, thorough bool) c02Scenario {
 		sc.Delays = uni(1)
 		sc.ReqDelays = rd(9)
 		return sc
+	case 5: // as 2, with a target timeout far below the duration of the streamed in-flight responses
+		sc.Delays = uni(1)
+		sc.Slow, sc.SlowLat = 3, 300*time.Millisecond+OffTarget
+		sc.ShortTT = true
+		sc.ReqDelays = rd(6)
+		sc.ArrStep = 10 * time.Millisecond
+		return sc
 	case 4: // the canonical grid for a sub-path service under a TLS root, requests over TLS
 		sc.TLSSub = true
 		sc.Delays = uni(1)
@@ -99,6 +110,10 @@ func c02Gen(rng *rand.Rand, idx int, thorough bool) c02Scenario {
 	sc.ArrStep = time.Duration(3+rng.IntN(8)) * time.Millisecond
 	sc.ProbeIv = time.Duration(5+rng.IntN(20)) * time.Millisecond
 	sc.TLSSub = rng.IntN(5) == 0
+	sc.ShortTT = sc.Slow > 0 && rng.IntN(3) == 0
+	if sc.ShortTT {
+		sc.SlowLat += 300 * time.Millisecond // still in flight well after the drain has begun
+	}
 	return sc
 }
 
@@ -133,6 +148,9 @@ func c02Run(t *testing.T, run *Run, sc c02Scenario) {
 	to := DefTO
 	to.HealthCheckConfig.Interval = sc.ProbeIv
 	to.HealthCheckConfig.Timeout = 5 * time.Second
+	if sc.ShortTT {
+		to.ResponseTimeout = sc.SlowLat / 4
+	}
 	const svc = "svc"
 	drainTO := 5 * time.Second
 	gen := func(g, n int, tag string) []string {
@@ -215,7 +233,7 @@ func c02Run(t *testing.T, run *Run, sc c02Scenario) {
 			id := fmt.Sprintf("s%d-%d", dep, s)
 			metas[id] = meta{dep: dep, slow: true}
 			r := Req{ID: id, Host: "c02.example", Path: "/slow", Lat: sc.SlowLat, TLS: sc.TLSSub, SNI: "c02.example"}
-			if s%2 == 1 {
+			if s%2 == 1 || sc.ShortTT {
 				// a streamed (chunked, no Content-Length) response whose second half is still to come
 				r = Req{ID: id, Host: "c02.example", Path: "/slow", Mode: "stream", Gap: sc.SlowLat, TLS: sc.TLSSub, SNI: "c02.example"}
 			}
